@@ -330,13 +330,30 @@ def serde_number_typing(a):
                                f"(=> (and {bu} (not {bi})) (> {u} {I64MAX})) (=> (and {bi} (not {bu})) (< {i} 0)))")
                 return ("enum", "Option", t, {"Some": ("int", u)})
             return pure(ex, av, "as_u64", mk)
+        def m_is_f64(ex, av):
+            # serde: a number is exactly one of i64-representable, u64-only, or float
+            def mk():
+                b = ex.havoc("bool")
+                ex.side.append(f"(= {b[1]} (and (not {m_is_i64(ex, av)[1]}) (not {m_is_u64(ex, av)[1]})))")
+                return b
+            return pure(ex, av, "is_f64", mk)
+
+        def m_unwrap_or_else(ex, av):
+            if av and av[0][0] == "enum" and "Some" in av[0][3] and av[0][3]["Some"][0] == "int":
+                r = ex.fresh("Int", "uoe")
+                ex.side.append(f"(=> (= {av[0][2]} 1) (= {r} {av[0][3]['Some'][1]}))")
+                ex.side.append(f"(and (<= (- {I64MAX + 1}) {r}) (<= {r} {I64MAX}))")
+                return ("int", r)
+            return ex.opq()
+
         def m_unwrap(ex, av):
             # Option::unwrap: the payload; unwrapping None is a panic and is an obligation of its own (below)
             if av and av[0][0] == "enum" and "Some" in av[0][3]:
                 return av[0][3]["Some"]
             return ex.opq()
         try:
-            ex = a.exec(rx, {"unwrap": m_unwrap, "is_i64": m_is_i64, "is_u64": m_is_u64, "as_i64": m_as_i64, "as_u64": m_as_u64, "as_f64": lambda ex, av: ("enum", "Option", "1", {"Some": ex.opq()}),      # contract: every serde number has an f64 reading
+            ex = a.exec(rx, {"unwrap": m_unwrap, "is_f64": m_is_f64, "unwrap_or_else": m_unwrap_or_else, "unwrap_or": m_unwrap_or_else,
+                             "unwrap_or_default": m_unwrap_or_else, "is_i64": m_is_i64, "is_u64": m_is_u64, "as_i64": m_as_i64, "as_u64": m_as_u64, "as_f64": lambda ex, av: ("enum", "Option", "1", {"Some": ex.opq()}),      # contract: every serde number has an f64 reading
                              "to_owned": mirexec.m_identity, "to_string": mirexec.m_identity, "clone": mirexec.m_identity,
                              "next": mirexec.m_iter_next, "into_iter": mirexec.m_new_iter, "iter": mirexec.m_new_iter,
                              "try_from": m_result_opq, "try_fold": m_result_opq, "handle_tagged_value": m_result_opq,
@@ -350,7 +367,7 @@ def serde_number_typing(a):
         bad, nnum = [], 0
         for p in ex.paths:
             r = p.ret
-            nums = [e for e in p.events if e[0] == "call" and e[1] == "is_i64"]
+            nums = [e for e in p.events if e[0] == "call" and e[1] in ("is_i64", "is_u64", "is_f64", "as_i64", "as_u64", "as_f64")]
             if not nums or p.outcome != "return" or not r or r[0] != "enum" or r[1] != "Result":
                 if nums and p.outcome != "return":
                     bad.append(pc_term(p.pc))        # a number never panics the loader
